@@ -23,7 +23,7 @@ CONSTANTS Config, T, K, Thorough
 MCThreads == 1..T
 
 MCCells == CASE Config \in {"ops", "t3", "t3x", "inc", "split"} -> {"c"}
-             [] Config = "cells" -> {"c", "d"}
+             [] Config \in {"cells", "chain"} -> {"c", "d"}
              [] Config \in {"render", "f17", "live"} -> {"c", "s"}
 
 MCCellType == [x \in MCCells |-> IF x = "s" THEN "any" ELSE "int"]
@@ -32,7 +32,7 @@ MCInitSpace ==
   CASE Config \in {"ops", "split"} -> {[x \in MCCells |-> I(6)]}
     [] Config \in {"t3", "t3x"} -> {[x \in MCCells |-> I(1)]}
     [] Config = "inc" -> {[x \in MCCells |-> I(0)]}
-    [] Config = "cells" -> {[x \in MCCells |-> IF x = "c" THEN I(6) ELSE I(3)]}
+    [] Config \in {"cells", "chain"} -> {[x \in MCCells |-> IF x = "c" THEN I(6) ELSE I(3)]}
     [] Config = "render" -> {[x \in MCCells |-> IF x = "c" THEN I(5) ELSE s] : s \in {I(0), R("s"), R("c")}}
     [] Config \in {"f17", "live"} -> {[x \in MCCells |-> IF x = "c" THEN I(5) ELSE R("s")]}
 
@@ -63,6 +63,10 @@ Triples(P) == LET s == SetToSeq(P) IN
    UNION {UNION {{<<s[i], s[j], s[l]>> : l \in j..Len(s)} : j \in i..Len(s)} : i \in 1..Len(s)}
 
 IncProg == [n \in 1..K |-> Asg("c", "+", I(1))]
+\* the chained assignment `x = y = n' is the assignment `y = n' followed by `x = n' (the inner assignment is the value of the
+\* outer one): two separate atomic updates, never two cells locked at once.  The harness writes these programs as ONE
+\* chained statement per thread.
+Chain(x, y, n) == <<Asg(y, "=", I(n)), Asg(x, "=", I(n))>>
 
 MCProgSpace ==
   CASE Config = "ops" ->
@@ -78,6 +82,9 @@ MCProgSpace ==
     [] Config = "t3" -> Triples(SeqsUpTo(OpsT3, 1)) \cup {[t \in 1..3 |-> [n \in 1..2 |-> Asg("c", "+", I(1))]]}
     [] Config = "t3x" -> Triples(SeqsUpTo(OpsT3, 2))
     [] Config = "inc" -> {[t \in 1..T |-> IncProg]}
+    [] Config = "chain" -> {<<Chain("c", "d", 1), Chain("d", "c", 2)>>, <<Chain("c", "d", 1), Chain("c", "d", 2)>>,
+                            <<Chain("d", "c", 1), Chain("d", "c", 2)>>, <<Chain("c", "d", 1), <<Asg("c", "+", I(1))>>>>,
+                            <<Chain("c", "d", 1), <<Asg("d", "*", I(2)), Deref("c")>>>>, <<Chain("c", "c", 1), Chain("c", "c", 2)>>}
     [] Config = "f17" -> {<<<<Asg("s", "=", R("s"))>>, <<Render("s")>>>>,
                           <<<<Asg("s", "=", R("s")), Asg("s", "=", R("s"))>>, <<Render("s"), Render("s")>>>>}
     [] Config = "split" -> {<<<<Asg("c", "+", I(1))>>, <<Asg("c", "+", I(1))>>>>}
@@ -108,7 +115,7 @@ Emit ==
         [n \in 1..Len(CaseSeq) |->
            LET p == CaseSeq[n][1]
                i == CaseSeq[n][2]
-           IN [id |-> n, config |-> Config, progs |-> p, init |-> i, types |-> MCCellType,
+           IN [id |-> n, config |-> Config, progs |-> p, init |-> i, types |-> MCCellType, chained |-> (Config = "chain"),
                depth |-> RenderDepth,
                outcomes |-> SetToSeq(SerialOutcomes(p, i)),
                orders |-> IF WithOrders THEN SetToSeq(OrdersFrom(p, AInit(p, i), <<>>)) ELSE <<>>]])
